@@ -85,6 +85,25 @@ def extra_edits(root, rnd, kind):
         ET.SubElement(fields, "field", number=n, name="VerifAdded", type=rnd.choice(["STRING", "INT", "PRICE", "BOOLEAN", "UTCTIMESTAMP"]))
         o = rnd.choice(owners_of(root)[2:])
         ET.SubElement(o, "field", name="VerifAdded", required=rnd.choice(["Y", "N"]))
+    elif kind == "deepgroup":
+        # groups nested three and four levels deep, with names of their own (the shipped schemas stop at two / reuse names)
+        fields = root.find("fields")
+        nums = {f.get("number") for f in fields}
+        free = (str(k) for k in range(5000, 9000) if str(k) not in nums)
+        depth = rnd.choice([3, 3, 4])
+        for lvl in range(depth):
+            ET.SubElement(fields, "field", number=next(free), name="NoVerifL%d" % lvl, type="NUMINGROUP")
+            ET.SubElement(fields, "field", number=next(free), name="VerifL%dVal" % lvl, type=rnd.choice(["STRING", "INT", "PRICE"]))
+        if rnd.random() < 0.5:
+            msgs = root.find("messages")
+            parent = ET.SubElement(msgs, "message", name="VerifDeep", msgtype="ZD", msgcat="app")
+            ET.SubElement(parent, "field", name=rnd.choice([f.get("name") for f in fields if f.get("name") not in FRAMING][:40]), required="N")
+        else:
+            parent = rnd.choice([m for m in root.find("messages") if m.get("name") not in ("Logon", "Logout", "Heartbeat", "TestRequest", "ResendRequest", "Reject")])
+        for lvl in range(depth):
+            g = ET.SubElement(parent, "group", name="NoVerifL%d" % lvl, required="N")
+            ET.SubElement(g, "field", name="VerifL%dVal" % lvl, required=rnd.choice(["Y", "N"]))
+            parent = g
     elif kind == "addmessage":
         msgs = root.find("messages")
         ET.SubElement(msgs, "message", name="VerifMsg", msgtype="ZV", msgcat="app")
@@ -165,8 +184,8 @@ def check(prop, tier, seed):
         p = os.path.join(xdir, "variant-%d.xml" % i)
         ET.ElementTree(root).write(p)
         jobs.append((gendrv, fixgen, p, types, "variant-%d:%s" % (i, "+".join(e["op"] for e in sc_["script"]) or "none"), sc_["accept"], None, True))
-    for i in range(10 if quick else 80):
-        kind = ["rename", "addfield", "addmessage", "typemap", "moveframing"][i % 5]
+    for i in range(12 if quick else 96):
+        kind = ["rename", "addfield", "addmessage", "typemap", "moveframing", "deepgroup"][i % 6]
         p = os.path.join(xdir, "extra-%d.xml" % i)
         tp = small_t
         if kind == "typemap":
